@@ -954,6 +954,51 @@ class Interp:
             if not inb:
                 raise Panic('index', 'index out of bounds: the len is %s but the index is %s' % (show_term(self.slice_len(sl)), show_term(idx)))
             return True, eref
+        if P == 'core::slice::<impl [T]>::clone_from_slice':
+            dst, src = args
+            self.copy_from_slice(st, dst, src)      # element types analysed here are Copy: clone == copy
+            return True, UNIT
+        if P == 'core::array::from_fn':
+            ret_ty = self.prog.instances[callee['key']]['sig']['output']
+            n_ = ret_ty.get('len')
+            if ret_ty['k'] != 'array' or n_ is None or n_ > 300:
+                raise Unsupported('array::from_fn of unknown size')
+            ckey = self.closure_key_of_deep(callee)
+            slot = Frame()
+            slot.fid = st.next_fid
+            st.next_fid += 1
+            slot.key = callee['key']
+            slot.inst = self.prog.instances[callee['key']]
+            slot.body = slot.inst['body']
+            slot.locals = {0: args[0]}
+            slot.bb = 0
+            slot.si = 0
+            slot.dest = None
+            slot.ret_bb = None
+            slot.call_span = None
+            st.perm[slot.fid] = slot
+            fref = ('ref', (('local', slot.fid, 0), ()))
+            return True, ('array', tuple(self.call_sync(st, ckey, [fref, ('tuple', (K(USIZE, i),))]) for i in range(n_)))
+        if P == 'core::mem::replace':
+            old_ = self.read(st, args[0][1])
+            self.write(st, args[0][1], args[1])
+            return True, old_
+        if P == 'core::mem::swap':
+            a_, b_ = self.read(st, args[0][1]), self.read(st, args[1][1])
+            self.write(st, args[0][1], b_)
+            self.write(st, args[1][1], a_)
+            return True, UNIT
+        if P == 'core::iter::Iterator::rev' and args[0][0] == 'model' and args[0][1] == 'iter':
+            return True, ('model', 'rev', args[0])
+        if P == '<core::iter::Rev<I> as core::iter::Iterator>::next':
+            it = self.read(st, args[0][1])
+            if it[0] == 'model' and it[1] == 'rev':
+                ret_ty = self.prog.instances[callee['key']]['sig']['output']
+                newit, item = self.model_next(st, it)
+                if item is None:
+                    return True, ('adt', ret_ty['id'], 0, ())
+                self.write(st, args[0][1], newit)
+                return True, ('adt', ret_ty['id'], 1, (item,))
         if P == 'core::slice::<impl [T]>::copy_from_slice':
             dst, src = args
             self.copy_from_slice(st, dst, src)
@@ -1028,9 +1073,11 @@ class Interp:
                 self.write(st, ref[1], ('model', 'iter', ('slice', sl[1], sl[2], last), pos))
                 return True, ('adt', ret_ty['id'], 1, (eref,))
             return True, ('adt', ret_ty['id'], 0, ())
-        m = re.match(r"^<core::slice::Iter(?:Mut)?<'a, T> as core::iter::(?:Iterator|ExactSizeIterator)>::(size_hint|len|count)$", P)
+        m = re.match(r"^<core::(?:slice::Iter(?:Mut)?<'a, T>|iter::Copied<I>|iter::Cloned<I>|iter::Rev<I>) as core::iter::(?:Iterator|ExactSizeIterator)>::(size_hint|len|count)$", P)
         if m:
             it = args[0] if args[0][0] == 'model' else self.read(st, args[0][1])
+            while it[0] == 'model' and it[1] in ('copied', 'rev'):
+                it = it[2]
             if it[0] != 'model' or it[1] != 'iter':
                 raise Unsupported('%s on %s' % (m.group(1), it[0]))
             rem = self.sub(self.slice_len(it[2]), it[3])
@@ -1038,12 +1085,34 @@ class Interp:
                 ret_ty = self.prog.instances[callee['key']]['sig']['output']
                 return True, ('tuple', (rem, ('adt', ret_ty['elems'][1]['id'], 1, (rem,))))
             return True, rem
+        if P in ('core::iter::Iterator::copied', 'core::iter::Iterator::cloned') and args[0][0] == 'model' \
+                and args[0][1] in ('iter', 'rev'):
+            return True, ('model', 'copied', args[0])
+        if P in ('<core::iter::Copied<I> as core::iter::Iterator>::next', '<core::iter::Cloned<I> as core::iter::Iterator>::next'):
+            ref = args[0]
+            it = self.read(st, ref[1])
+            if it[0] != 'model':
+                return False, None
+            ret_ty = self.prog.instances[callee['key']]['sig']['output']
+            newit, item = self.model_next(st, it)
+            if item is None:
+                return True, ('adt', ret_ty['id'], 0, ())
+            self.write(st, ref[1], newit)
+            return True, ('adt', ret_ty['id'], 1, (item,))
+        m = re.match(r"^(?:<.*> as core::iter::Iterator>|core::iter::Iterator)::(fold|all|any|position|find|for_each)$", P)
+        if m and args and (args[0][0] == 'model' or (args[0][0] == 'ref' and self.peek_is_model(st, args[0]))):
+            return True, self.iter_closure_method(st, m.group(1), callee, args)
         if P == 'core::iter::Iterator::zip':
             a, b = args
-            return True, ('model', 'zip', self.as_iter(st, a, None), self.as_iter(st, b, callee))
+            try:
+                return True, ('model', 'zip', self.as_iter(st, a, None), self.as_iter(st, b, callee))
+            except Unsupported:
+                return False, None      # a side is an iterator the models do not know: interpret core's generic Zip
         if P == '<core::iter::Zip<A, B> as core::iter::Iterator>::next':
             ref = args[0]
             it = self.read(st, ref[1])
+            if it[0] != 'model':
+                return False, None
             ret_ty = self.prog.instances[callee['key']]['sig']['output']
             newit, item = self.model_next(st, it)
             if item is None:
@@ -1204,7 +1273,7 @@ class Interp:
 
     def as_iter(self, st, v, callee):
         """IntoIterator::into_iter of the kinds of value the models know."""
-        if v[0] == 'model' and v[1] in ('iter', 'zip', 'arrayiter', 'chunks'):
+        if v[0] == 'model' and v[1] in ('iter', 'zip', 'arrayiter', 'chunks', 'rev', 'copied'):
             return v
         if v[0] == 'array':
             return ('model', 'arrayiter', v, K(USIZE, 0))
@@ -1229,6 +1298,31 @@ class Interp:
                 eref = ('ref', (sl[1][0], sl[1][1] + (('i', self.add(sl[2], pos)),)))
                 return ('model', 'iter', sl, self.add(pos, K(USIZE, 1))), eref
             return it, None
+        if it[1] == 'rev':
+            inner = it[2]
+            if inner[0] != 'model' or inner[1] != 'iter':
+                raise Unsupported('rev over %s' % (inner[1],))
+            sl, pos = inner[2], inner[3]
+            ln = self.conc(st, self.slice_len(sl))
+            if not is_const(ln):
+                c0, t0 = lin_of(ln)
+                lo, hi = st.know.interval(c0, t0)
+                if hi - lo > 64:
+                    raise Unsupported('reverse loop over a slice whose symbolic length is not bounded')
+                for v in range(lo, hi + 1):
+                    if self.need(st, mk_cmp('Eq', ln, K(USIZE, v))):
+                        ln = K(USIZE, v)
+                        break
+            if self.need(st, mk_cmp('Lt', pos, ln)):
+                last = self.conc(st, self.sub(sl[3], K(USIZE, 1)))
+                eref = ('ref', (sl[1][0], sl[1][1] + (('i', last),)))
+                return ('model', 'rev', ('model', 'iter', ('slice', sl[1], sl[2], last), pos)), eref
+            return it, None
+        if it[1] == 'copied':
+            ni, item = self.model_next(st, it[2])
+            if item is None:
+                return it, None
+            return ('model', 'copied', ni), self.read(st, item[1])
         if it[1] == 'chunks':
             sl, size, pos, exact = it[2], it[3], it[4], it[5]
             ln = self.slice_len(sl)
@@ -1275,6 +1369,30 @@ class Interp:
             raise Unsupported('cannot identify the closure called by %s (%d candidates)' % (callee['path'], len(keys)))
         return keys[0]
 
+    def closure_key_of_deep(self, callee, depth=0):
+        """Like closure_key_of, but follows calls into non-local helpers (array::from_fn -> try_from_fn -> ...)."""
+        try:
+            return self.closure_key_of(callee)
+        except Unsupported:
+            if depth > 4:
+                raise
+        inst = self.prog.instances.get(callee['key'])
+        if inst is None:
+            raise Unsupported('no MIR for %s' % callee['path'])
+        found = set()
+        for b in inst['body']['blocks']:
+            tm = b['term']
+            if tm['k'] == 'call' and tm['callee'].get('key') and not tm['callee'].get('local'):
+                try:
+                    found.add(self.closure_key_of_deep(tm['callee'], depth + 1))
+                except Unsupported:
+                    pass
+        # keep only user closures (defined in the analysed crate)
+        user = sorted(k for k in found if self.prog.instances[k]['crate'] == self.prog.meta['crate'])
+        if len(user) != 1:
+            raise Unsupported('cannot identify the closure called by %s' % callee['path'])
+        return user[0]
+
     def call_sync(self, st, key, args):
         """Run a callee to its return inside a model. A fork inside it re-executes the whole modelled call."""
         depth = len(st.frames)
@@ -1308,8 +1426,31 @@ class Interp:
                 raise
         return holder[0]
 
+    def peek_is_model(self, st, ref):
+        try:
+            v = self.read(st, ref[1])
+        except Exception:
+            return False
+        return isinstance(v, tuple) and len(v) > 1 and v[0] == 'model' and v[1] in ('iter', 'zip', 'arrayiter', 'chunks', 'rev', 'copied')
+
+    def closure_key_of_value(self, st, f):
+        """The instance of a closure value: its definition path, monomorphised as the innermost frame that defines it."""
+        if not (isinstance(f, tuple) and f and f[0] == 'closure'):
+            raise Unsupported('a callable that is not a closure value is passed to a modelled iterator method')
+        cands = [k for k, i in self.prog.instances.items() if i.get('closure') and i['path'] == f[1]]
+        if len(cands) == 1:
+            return cands[0]
+        for fr in reversed(st.frames):
+            hit = [k for k in cands if k.startswith(fr.key + '::{closure')]
+            if len(hit) == 1:
+                return hit[0]
+        raise Unsupported('cannot identify the instance of closure %s (%d candidates)' % (f[1], len(cands)))
+
     def iter_closure_method(self, st, meth, callee, args):
-        ckey = self.closure_key_of(callee)
+        try:
+            ckey = self.closure_key_of(callee)
+        except Unsupported:
+            ckey = self.closure_key_of_value(st, args[2] if meth == 'fold' else args[1])
         ret_ty = self.prog.instances[callee['key']]['sig']['output']
         itref = args[0]
         by_value = itref[0] == 'model'
@@ -1702,7 +1843,7 @@ class Interp:
             self.assign(st, fr, t['dest'], ('fmtargs', args[0][1] if args[0][0] == 'str' else ''))
             fr.bb, fr.si = t['target'], 0
             return False
-        if callee['kind'] != 'item':
+        if callee['kind'] not in ('item', 'closure_once_shim', 'fn_ptr_shim', 'reify_shim', 'clone_shim'):
             raise Unsupported('call to shim %s (%s)' % (path, callee['kind']))
         self.push_frame(st, callee['key'], args, t['dest'], t['target'], t['fn_span'].get('callsite') or t['fn_span']['at'])
         return False
